@@ -47,6 +47,14 @@ def scenarios(ctx):
             s['meta']['overlapping_threads'] = True
             s['meta']['k'] = 0 if kind != 'none' else s['meta']['k']
             scs.append(s)
+    # an imported module selected for auto-profiling (-p): every registration call the rewrite inserts switches the profiler on, by count,
+    # for the rest of the run — it has to be off again when main returns or raises
+    for mode in ('l', 'lm', 'lb'):
+        for kind in ('none', 'exit', 'error'):
+            s = kplib.scenario(mode, kind, extra_opts=['-p', 'helper_mod'] + (['--prof-imports'] if kind == 'none' and mode == 'l' else []),
+                               files={'helper_mod.py': 'def hf(x):\n    return x + 1\n'}, extra_prog='import helper_mod\nhelper_mod.hf(1)')
+            s['meta']['imported_module_selected'] = True
+            scs.append(s)
     # the embedding application had set the importable decorator up itself before calling kernprof
     for mode in ('l', 'b', 'lm', 'plain'):
         for kind in ('none', 'error'):
